@@ -105,6 +105,12 @@ func (g *gen) file(size int, kind string, nameClass int) fileIn {
 		default:
 			f.CT = hk.Pick(rng, []string{"application/pdf", "text/plain; charset=utf-8", "x/y"})
 		}
+		if rng.Chance(20) { // extra Content-Disposition parameters (token keys other than name / filename)
+			f.Extra = [][2]string{{"creation-date", "Wed, 12 Feb 1997 16:29:51 -0500"}}
+			if rng.Bool() {
+				f.Extra = append(f.Extra, [2]string{"x-id", hk.Pick(rng, quotedNames)})
+			}
+		}
 		switch rng.Intn(4) {
 		case 0:
 			f.Decl = int64(size)
@@ -236,6 +242,9 @@ func (g *gen) multipartCases() {
 		r.Count(fmt.Sprintf("multipart:name-class=%d", nameClass))
 		for _, f := range in.Files {
 			r.Count("multipart:file-kind:" + f.Kind)
+			if len(f.Extra) > 0 {
+				r.Count("multipart:extra-content-disposition")
+			}
 		}
 		if in.Chunked || in.Callback != "" {
 			r.Count("multipart:chunked")
